@@ -35,6 +35,7 @@ Fixpoint assigned (st : stmt) : list var :=
   | SAssign x _ => [x]
   | SCall _ (Some x) _ _ => [x]
   | SConv x _ _ => [x]
+  | SCall2 _ x xe _ _ => match x with Some y => [y] | None => [] end ++ match xe with Some y => [y] | None => [] end
   | SCallI _ _ (Some x) _ _ _ _ => [x]
   | _ => []
   end.
@@ -73,6 +74,10 @@ Fixpoint stmt_prot (st : stmt) (P : pset) : option pset * bool :=
       let '(_, okb) := stmt_prot body Pt in
       (Some Pf, okc && okb)
   | SReturn _ => (None, true)
+  | SReturn2 _ _ => (None, true)
+  | SCall2 _ x xe _ _ =>
+      let P1 := match x with Some y => premove y P | None => P end in
+      (Some (match xe with Some y => premove y P1 | None => P1 end), true)
   | SConv x _ _ => (Some (x :: P), true)
   | SCallI _ _ x xi _ _ _ => (Some (match x with Some y => premove y P | None => P end), pmem xi P)
   end.
